@@ -71,9 +71,7 @@ def observe(env, cat, mod, m, what):
     elif what == "to_dict-defaults":
         m.to_dict(include_default_values=True)
     elif what == "to_json":
-        d = m.to_dict()
-        if not env.sym:
-            m.to_json()
+        m.to_json()  # symbolically through the model of json (vf/symjson.py)
     elif what == "to_pydict":
         m.to_pydict()
 
